@@ -195,6 +195,26 @@ func checkMain(args []string) {
 	for _, c := range baseline[*prop] {
 		base[c] = true
 	}
+	// A claimed obligation that ran out of time (no solver said sat) is tried once more, alone and with a longer limit,
+	// before it is reported: a loaded machine must not turn into a false alarm. At most a few are retried so that a
+	// genuinely broken tree is still reported quickly.
+	if !*update {
+		retried := 0
+		for _, r := range results {
+			if r.OK || r.O.Expect == "sat" || !base[oblClass(r.O.Name)] || retried >= 6 {
+				continue
+			}
+			if r.R.Status != "timeout" && r.R.Status != "unknown" && r.R.Status != "error" {
+				continue
+			}
+			retried++
+			r2 := solve(r.Qry, dir, r.O.Name+"_retry", 6*secs, nil)
+			if r2.Status == "unsat" {
+				r.R = r2
+				r.OK = true
+			}
+		}
+	}
 	knownFor := map[string]*KnownFinding{}
 	for i := range known {
 		if known[i].Property == *prop && known[i].Status == "known" {
